@@ -247,5 +247,6 @@ NoViolation == viol = NoViol
 Bounded == nestedView \in -2..(2 * MaxLua + 2)
 
 \* generation / coverage configuration: one line per executed node
-GenLog == LogTransition(<<>>, lastAct', <<>>)
+GenLog == LogTransition(<<isQuery, nestedView, depth>>, lastAct',
+                        IF Len(stack') > 0 /\ Len(stack') = Len(stack) THEN stack'[Len(stack')].pc ELSE 0)
 =============================================================================
